@@ -19,9 +19,10 @@
      same core and the same DOM gives the same answer and again states with the same core and the same DOM
      (from TreeFrame.v: one frame lemma per definition of the model); [run_tokens_same_core] for whole runs.
    CONTINUED IN
-   * TreeSplitBody.v: the split theorem for "in body" and the modes "in caption" / "in template" that delegate
-     character tokens to it (reconstruct-the-active-formatting-elements is a no-op the second time, frameset-ok is
+   * TreeSplitBody.v: the split theorem for "in body" and the modes "in caption" / "in template" / "in cell" that
+     delegate character tokens to it (reconstruct-the-active-formatting-elements is a no-op the second time, frameset-ok is
      the OR over the pieces).
+   * TreeSplitForeign.v: the split theorem for character tokens handled by the foreign-content rules.
    * TreeSplitRun.v: whole token lists related by [splits], under the side condition that every cut token is
      processed in a covered state ([tree_split_run_partial]); the list of what is not covered is in its header.
    * TreeSplitTable.v: the flush of the pending table text when it is white space only.
@@ -30,7 +31,7 @@
      two runs has to identify them between the cut and the flush; the foster-parenting branch of the flush);
      the early modes that split off leading white space (SplitWhitespace: the runs of a ++ b are not the runs of a
      followed by the runs of b when a run spans the cut; dropped white space is dropped in both); foster parenting,
-     template current nodes, foreign content, "in cell".  NUL characters are separate tokens.
+     template current nodes.  NUL characters are separate tokens.
    ======================================================================== *)
 From Coq Require Import List NArith Bool Arith Lia String.
 From HV Require Import Dom.DomSpec Dom.DomLemmas SinkSpec.Contract SinkSpec.ContractProofs.
